@@ -372,7 +372,11 @@ def okC08cons (ctx : Ctx) (acts : List (Act α)) : Bool :=
       if ctx.rule == "meek-prf" then
         (a.tag == "begin" || a.tag == "elect" || a.tag == "tie" || a.tag == "end"
          || (a.tag == "defeat" && !(isRemaining a))) && !(a.tag == "elect" && isRemaining a)
-      else a.tag == "iterate" || a.tag == "end"
+      else
+        -- meek.py distributes the votes before every action it logs (`meek_identity`: every snapshot); the first-preference
+        -- tallies shown at `begin` and at the opening of round 1 do not yet account for the rounding of equal-rank splits
+        -- (nor do the snapshots of a count that ends before its first round)
+        a.tag == "end" || (decide (a.round ≥ 1) && !(a.tag == "round" && a.round == 1))
     let live := s.cs.filter (fun e => e.2.1 != "W")
     let tot := A.add (A.sum (live.map (·.2.2.1))) s.x1
     !named || (rawEq A tot n && !(A.ltRaw s.x1 A.zero) && live.all (fun e => !(A.ltRaw e.2.2.1 A.zero))))
